@@ -591,7 +591,34 @@ def o7(ctx):
                 okn = okn or any(cond[0] == "true" and ("starts_with" in role_str(cond[1]) or "strip_prefix" in role_str(cond[1])) and "'$'" in role_str(cond[1]) for e, cond in conds)
                 arg = role_str(t.role_of_operand(c.args[0]), 14)
                 okn = okn or ("strip_prefix" in arg and "'$'" in arg)
+        sigil_dropped_once(ctx, t)
         ctx.check(okn, "tokenizer-strips-dollar", "the tokenizer passes the text after `$` to Slot::named", "the tokenizer does not call Slot::named under starts_with('$')", where_of(t))
+
+
+def sigil_dropped_once(ctx, t):
+    """`$name` / `?name`: the text handed to crop_ident is the input without its FIRST character.  `$` and `?` are ordinary
+    identifier characters after the first position (`Slot::named("$x")` prints as `$$x`), so stripping a whole run of them
+    (`trim_start_matches('$')`) or more than one character maps `$$x` and `$x` to the same slot: names stop being injective and
+    print / parse stops being the identity."""
+    n = 0
+    for c in t.calls:
+        if not (c.callee and c.callee.name == "crop_ident" and c.args):
+            continue
+        r = strip_role(t.role_of_operand(c.args[0]))
+        if r == ("param", "s") or (isinstance(r, tuple) and r[0] in ("param", "phi", "local")):
+            continue        # (the plain-identifier branch: nothing is stripped)
+        n += 1
+        bad = None
+        # (only the outermost operation counts: `s` itself is loop-carried and has the whole history of the scan behind it)
+        if r[0] == "call" and r[1] in ("trim_start_matches", "trim_left_matches", "trim_matches", "trim_start", "trim_left", "trim", "trim_end_matches", "replace", "replacen"):
+            bad = "%s(..)" % r[1]
+        if r[0] == "call" and r[1] == "index" and len(r[3]) == 2:
+            x = strip_role(r[3][1])
+            if isinstance(x, tuple) and x[0] == "agg" and x[1].endswith("RangeFrom") and x[2] and x[2][0][0] == "const" and x[2][0][1].split("_")[0] not in ("1",):
+                bad = "[%s..]" % x[2][0][1].split("_")[0]
+        ctx.check(bad is None, "sigil-dropped-exactly-once:%d" % n, "the name after a sigil is the input without its first character",
+                  "the tokenizer hands crop_ident %s of the input: more (or something else) than the one sigil character is removed, so `$$x` and `$x` (or `??a` and `?a`) read as the same name although they print differently" % bad, where_of(t, c.bb))
+    ctx.floor("sigil branches of the tokenizer", n, 1)
 
 
 RULES = [o1, o2, o7]
